@@ -534,7 +534,16 @@ def run():
     for (fam, e), t in times.items():
         if all(t.get(k) is not None for k in (1, 2, 4)):
             growth["%s:%s" % (e, fam)] = [t[1], t[2], t[4]]
-            if t[4] >= 3000 and t[2] > 0 and t[4] / max(t[2], 1) > 16 and t[2] / max(t[1], 1) > 8:
+            steep = lambda t: t[4] >= 3000 and t[2] > 0 and t[4] / max(t[2], 1) > 16 and t[2] / max(t[1], 1) > 8
+            if steep(t):
+                # second look, one request at a time (a loaded machine must not turn into a growth report)
+                again = probe([{"entry": e, "src": S.NEST[fam](base_n * k), "stack_mb": 64, "log": "off", **({"target": "sql.generic"} if e == "compile" else {})} for k in (1, 2, 4)],
+                              cap_ms=ck.n(20000, 60000) * 4, shards=1)
+                ck.stat("probe-retry", "growth-second-look")
+                if all("ms" in a for a in again):
+                    t = {1: again[0]["ms"], 2: again[1]["ms"], 4: again[2]["ms"]}
+                    growth["%s:%s" % (e, fam)] = [t[1], t[2], t[4]]
+            if steep(t):
                 ck.violation("time grows faster than any small polynomial for family %s on %s: %s ms at n, 2n, 4n (n = %d)" % (fam, e, [t[1], t[2], t[4]], base_n),
                              {"family": fam, "n": base_n, "ms": [t[1], t[2], t[4]], "src": S.NEST[fam](base_n)[:3000], "entry": e})
     ck.coverage["growth_ms_at_n_2n_4n"] = growth
